@@ -1,16 +1,156 @@
 /-
-  PCV.Model.DrvSonic — driver requests of the Sonic scheme model (op names start with "sonic.").
+  PCV.Model.DrvSonic — driver requests `sonic.*`.  Every request carries the universal parameters
+  (`pg`, `pgg`, `h`, `beta_h`, `neg_h`) and the trim arguments (`supported`, `shb`, `tbounds`); the
+  driver runs the model's `trim` first, so `trim` is exercised by every case.
 -/
 import PCV.Model.Wire
 import PCV.Model.DrvUtil
+import PCV.Model.Sonic
 namespace PCV
 namespace DrvSonic
+open Driver Sonic
+open Marlin (Label LPoly Query)
 
-/-- `none` = not an op of this module -/
+variable {p : Nat}
+
+def asLabel (v : Val) : R Label := asNats v
+def asLabels (v : Val) : R (List Label) := do let xs ← asList v; xs.mapM asLabel
+def asOptNats (v : Val) : R (List (Option Nat)) := do let xs ← asList v; xs.mapM asOptNat
+def asOptFes (v : Val) : R (List (Option (Fp p))) := do let xs ← asList v; xs.mapM asOptFe
+
+def vOptFes (xs : Option (List (Fp p))) : Val :=
+  match xs with | none => .none | some l => .some (vFes l)
+def vOptNats (xs : Option (List Nat)) : Val :=
+  match xs with | none => .none | some l => .some (vNats l)
+
+def getPP (r : Req) : R (UParams (Fp p)) := do
+  pure ⟨← asFes (← need r "pg"), ← asFes (← need r "pgg"), ← asFe (← need r "h"),
+        ← asFe (← need r "beta_h"), ← asFes (← need r "neg_h")⟩
+
+def getTrim (r : Req) : R (Except Err (CK (Fp p) × VK (Fp p))) := do
+  let pp ← getPP (p := p) r
+  let supported ← asNat (← need r "supported")
+  let shb ← asNat (← need r "shb")
+  let bounds ← (do
+    match ← asOpt (← need r "tbounds") with
+    | none => pure none
+    | some b => do let l ← asNats b; pure (some l) : R (Option (List Nat)))
+  pure (trim pp supported shb bounds)
+
+def getPolys (r : Req) : R (List (LPoly (Fp p))) := do
+  let labels ← asLabels (← need r "labels")
+  let polys ← asFess (← need r "polys")
+  let bounds ← asOptNats (← need r "bounds")
+  let hbs ← asOptNats (← need r "hbs")
+  pure <| (labels.zip (polys.zip (bounds.zip hbs))).map fun (l, (q, (b, h))) => ⟨l, q, b, h⟩
+
+def getComms (r : Req) : R (List (LComm (Fp p))) := do
+  let labels ← asLabels (← need r "clabels")
+  let cs ← asFes (← need r "cs")
+  let bounds ← asOptNats (← need r "cbounds")
+  pure <| (labels.zip (cs.zip bounds)).map fun (l, (c, b)) => ⟨l, c, b⟩
+
+def getProofs (r : Req) : R (List (KZG.Proof (Fp p))) := do
+  let ws ← asFes (← need r "ws")
+  let rvs ← asOptFes (← need r "rvs")
+  pure (List.zipWith (fun w rv => ⟨w, rv⟩) ws rvs)
+
+def getQueries (r : Req) : R (List (Query (Fp p))) := do
+  let ql ← asLabels (← need r "qlabels")
+  let pl ← asLabels (← need r "qplabels")
+  let pts ← asFes (← need r "qpoints")
+  pure <| (ql.zip (pl.zip pts))
+
+def getEvals (r : Req) : R (List ((Label × Fp p) × Fp p)) := do
+  let el ← asLabels (← need r "elabels")
+  let pts ← asFes (← need r "epoints")
+  let vs ← asFes (← need r "evals")
+  pure <| (el.zip (pts.zip vs)).map fun (l, (z, v)) => ((l, z), v)
+
+/-- optional overrides of verifier-key elements (C10's key mutations) -/
+def overrideVK (r : Req) (vk : VK (Fp p)) : R (VK (Fp p)) := do
+  let fe (k : String) (d : Fp p) : R (Fp p) :=
+    match r.get? k with
+    | none => pure d
+    | some v => asFe v
+  let g ← fe "vk_g" vk.g
+  let gg ← fe "vk_gamma_g" vk.gammaG
+  let h ← fe "vk_h" vk.h
+  let bh ← fe "vk_beta_h" vk.betaH
+  let negH ← (match r.get? "vk_neg_h" with
+    | none => pure vk.negH
+    | some v => do
+      let xs ← asFes v
+      pure (vk.negH.map fun l => (l.zip xs).map fun (e, x) => (e.1, x)) : R (Option (List (Nat × Fp p))))
+  pure { vk with g := g, gammaG := gg, h := h, betaH := bh, negH := negH }
+
+/-- numbered fields `k0, k1, …` -/
+def numbered (k : String) (vs : List Val) : List (String × Val) :=
+  (List.range vs.length).zip vs |>.map fun (i, v) => (k ++ toString i, v)
+
+def vProofs (πs : List (KZG.Proof (Fp p))) : List (String × Val) :=
+  [("ws", vFes (πs.map (·.w))), ("rvs", .l (πs.map fun π => vOptFe π.rv))]
+
 def handle (p : Nat) (r : Req) : Option (Except String String) :=
-  let _ := p
-  let _ := r
-  none
+  if !r.op.startsWith "sonic." then none else some do
+  let t ← getTrim (p := p) r
+  match t with
+  | .error e => pure (errReply e)
+  | .ok (ck, vk0) =>
+  let vk ← overrideVK r vk0
+  match r.op with
+  | "sonic.trim" =>
+    let sg := ck.shiftedGamma.getD []
+    let nh := vk.negH.getD []
+    pure <| okReply ([("powers", vFes ck.powers), ("gamma", vFes ck.gammaPowers),
+      ("shifted", vOptFes ck.shiftedPowers), ("bounds", vOptNats ck.bounds),
+      ("max_degree", .n ck.maxDegree), ("ck_supported", .n ck.supportedDegree),
+      ("g", vFe vk.g), ("gamma_g", vFe vk.gammaG), ("vh", vFe vk.h), ("vbeta_h", vFe vk.betaH),
+      ("supported", .n vk.supported), ("vk_max_degree", .n vk.maxDegree),
+      ("sg_bounds", match ck.shiftedGamma with | none => .none | some l => .some (vNats (l.map (·.1)))),
+      ("nh_bounds", match vk.negH with | none => .none | some l => .some (vNats (l.map (·.1))))]
+      ++ numbered "sg" (sg.map fun e => vFes e.2) ++ numbered "nh" (nh.map fun e => vFe e.2))
+  | "sonic.commit" =>
+    let polys ← getPolys (p := p) r
+    let rng ← asBool (← need r "rng")
+    let draws ← asFes (← need r "draws")
+    pure <| exceptReply (commit ck polys rng draws) fun (cs, rs, rest) =>
+      [("cs", vFes (cs.map (·.comm))), ("cbounds", .l (cs.map fun c => match c.bound with
+          | none => .none | some d => .some (.n d))),
+       ("rands", .l (rs.map fun x => vFes x)),
+       ("used", .n (draws.length - rest.length))]
+  | "sonic.open" =>
+    let polys ← getPolys (p := p) r
+    let rands ← asFess (← need r "rands")
+    let z ← asFe (← need r "z")
+    let ξs ← asFes (← need r "xis")
+    pure <| exceptReply (Sonic.open ck polys z rands ξs) fun (π, rest) =>
+      [("w", vFe π.w), ("rv", vOptFe π.rv), ("used", .n (ξs.length - rest.length))]
+  | "sonic.check" =>
+    let comms ← getComms (p := p) r
+    let z ← asFe (← need r "z")
+    let vs ← asFes (← need r "vs")
+    let π : KZG.Proof (Fp p) := ⟨← asFe (← need r "w"), ← asOptFe (← need r "rv")⟩
+    let ξs ← asFes (← need r "xis")
+    pure <| exceptReply (check vk comms z vs π ξs) fun (b, rest) =>
+      [("b", vBool b), ("used", .n (ξs.length - rest.length)),
+       ("defect_zero", vBool (decide (defect vk comms z vs π ξs = 0)))]
+  | "sonic.batch_open" =>
+    let polys ← getPolys (p := p) r
+    let rands ← asFess (← need r "rands")
+    let qs ← getQueries (p := p) r
+    let ξs ← asFes (← need r "xis")
+    pure <| exceptReply (batchOpen ck polys rands qs ξs) fun (πs, rest) =>
+      vProofs πs ++ [("used", .n (ξs.length - rest.length))]
+  | "sonic.batch_check" =>
+    let comms ← getComms (p := p) r
+    let qs ← getQueries (p := p) r
+    let evals ← getEvals (p := p) r
+    let πs ← getProofs (p := p) r
+    let ξs ← asFes (← need r "xis")
+    let rs ← asFes (← need r "rs")
+    pure <| exceptReply (batchCheck vk comms qs evals πs ξs rs) fun b => [("b", vBool b)]
+  | _ => .error "unknown-op"
 
 end DrvSonic
 end PCV
